@@ -9,6 +9,7 @@ schema and data; rows must agree as multisets (key sequence under ORDER BY). A d
 classified by re-running risinglight with the optimizer off (then it is the optimizer's, and the
 rules are bisected) - otherwise it is the executor's / binder's."""
 import random
+import re
 
 from common import Report, Violation, parallel_map, h, run_sentinels
 from gen import gen_schema, setup_statements, QueryGen
@@ -23,6 +24,22 @@ FEATURES = dict(full_join=True, not_in_sub=False, like=False, bool_col_cond=Fals
 
 def compare(a, b, order):
     return ordered_equal(a, b, order) if order else ms(a) == ms(b)
+
+
+_ON = re.compile(r" ON (.*?)(?= (?:JOIN|LEFT JOIN|RIGHT JOIN|FULL JOIN|CROSS JOIN|WHERE|GROUP BY|ORDER BY|HAVING|LIMIT)\b|$)")
+
+
+def sqlite_reference_unreliable(sql):
+    """SQLite 3.40.1 (the reference in this sandbox) returns no rows for
+    `a JOIN b ON <constant false> RIGHT JOIN c ON ...` (checked by hand: with a non-constant false
+    condition it returns c's rows NULL-padded, as the standard and risinglight do). Queries with a
+    RIGHT/FULL JOIN and a join condition without any column reference are not judged."""
+    if "RIGHT JOIN" not in sql and "FULL JOIN" not in sql:
+        return False
+    for m in _ON.finditer(sql):
+        if not re.search(r"\b[a-z]\w*\.[a-z]\w*", m.group(1)):
+            return True
+    return False
 
 
 def run_case(args):
@@ -43,6 +60,9 @@ def run_case(args):
         g = QueryGen(rng, tables, FEATURES)
         for _ in range(nq):
             q = g.query()
+            if sqlite_reference_unreliable(q.sql):
+                res["ref_err"] += 1
+                continue
             ref = lt.sql(q.sql)
             if not ref["ok"]:
                 res["ref_err"] += 1     # generator produced something SQLite rejects: not judged
